@@ -239,6 +239,7 @@ BINARY_OPS = ["+", "-", "*", "/", "%", "<", "<=", ">", ">=", "==", "!=", "in", "
 # diagnostic rendering walks the source tree), macros and special forms with the wrong number of arguments, a bind
 # variable that is not an identifier, identifiers that are words of the host language, selections on message literals
 SPELLED_FORMS = [
+    "li[d1]", "li[d1 / d2]", "li[-d1]", "li3[d1 * d2]", "m[d1]", "s1[d1]", "li[u1]", "li[b1]", "li[n]", "li[s1]", "li[li]", "[li][d1 / d2]", "li[double(i1) / 0.0]",
     "i1 + []", "[] + i1", "[[]] + i1", "{{}} + i1", "i1 + {{}}", "-[]", "[].a", "[][i1]", "{{}}[i1]", "{{}}.a", "[] < []", "i1 / i2 + [].a", "[[], i1 / i2][1]",
     "has()", "has({0})", "has({0}, {0})", "has({0}.a, {0}.b)", "dyn()", "dyn({0}, {0})", "size()", "size({0}, {0})", "type()", "type({0}, {0})", "int()", "int({0}, {0})",
     "{0}.map()", "{0}.map(x)", "{0}.map(x, x, x)", "{0}.map(x, y, z)", "{0}.all()", "{0}.all(x)", "{0}.all(x, true, true)", "{0}.exists()", "{0}.exists(x)",
